@@ -825,11 +825,17 @@ def tool_part(ctx, bufsz):
                 cuts.add(rng.randint(MAGIC_LEN[codec], len(whole) - 1))
             for cut in sorted(c for c in cuts if MAGIC_LEN[codec] <= c < len(whole)):
                 add("truncated", codec, tag, "cut to %d of %d bytes" % (cut, len(whole)), whole[:cut], "error-or-same")
+            # the magic number itself damaged: tar_open_stream cannot recognise the codec and reads the bytes as a tar stream
+            b0 = bytearray(whole); b0[0] ^= 1
+            add("magic-damaged", codec, tag, "bit 0 of byte 0 (magic number) flipped, %d bytes" % len(whole), bytes(b0), "error-or-same")
             nflip = (6 if small else 1) if quick else (40 if small else 4)
             for _ in range(nflip):
                 pos = rng.randrange(len(whole)); bit = rng.randrange(8)
                 b = bytearray(whole); b[pos] ^= 1 << bit
-                add("flipped", codec, tag, "bit %d of byte %d flipped" % (bit, pos), bytes(b), "reference")
+                if pos < MAGIC_LEN[codec]:
+                    add("magic-damaged", codec, tag, "bit %d of byte %d (magic number) flipped, %d bytes" % (bit, pos, len(whole)), bytes(b), "error-or-same")
+                else:
+                    add("flipped", codec, tag, "bit %d of byte %d flipped" % (bit, pos), bytes(b), "reference")
 
     def run_job(j):
         cls, codec, tag, desc, data, oracle = j
@@ -870,6 +876,9 @@ def tool_part(ctx, bufsz):
             key, what = "not-transparent:%s:%s" % (codec, cls), "tar2sqfs on %s (%s, archive %s) gives %s instead of the image of the plain archive" % (codec, desc, tag, res[:2])
         elif oracle == "same-or-error" and not (same or clean_err):
             key, what = "not-transparent:%s:%s" % (codec, cls), "tar2sqfs on %s with %s gives another image (exit 0)" % (codec, desc)
+        elif oracle == "error-or-same" and cls == "magic-damaged" and not (same or clean_err):
+            key, what = "unrecognised-short-input-accepted", ("tar2sqfs exits 0 with an empty/shorter image on a %s stream whose magic number is damaged (%s): "
+                                                             "tar_open_stream reads it as a tar stream and the tar reader takes less than one header of garbage for a clean end" % (codec, desc))
         elif oracle == "error-or-same" and not (same or clean_err):
             key, what = "truncated-accepted:%s" % codec, "tar2sqfs exits 0 with a shorter image on a truncated %s stream (%s)" % (codec, desc)
         elif oracle == "reference":
